@@ -106,6 +106,78 @@ theorem store_survives_refresh (c : Store.Cfg) (k : Nat) (s0 s sm sm' s' : Store
     omega)
   exact ⟨l2, hl2, not_older_trans ho1 ho2⟩
 
+/-! ### Composite reads
+
+`GetFromComposite` reads the child through the parent. What it leaves behind for the *parent* is what a `Get` leaves
+behind: either the parent's location is fresh when the call looks it up (then `store_survives` applies to the
+parent key), or the call reserves space for a refresh before anything is served (then, once the region after slicing
+has finalized that reservation, `store_survives_refresh` applies). The first theorem is the case distinction
+itself: a parent in an old block is never served - neither directly nor through an existing child entry - without a
+refresh having been reserved. (Nothing is claimed for the child read on its own later: a child entry that predates
+a still fresh parent is served from wherever it is.) -/
+
+theorem composite_old_parent_reserves (c : Store.Cfg) (s : Store.St) (pk ck : Nat) (pl : Store.Loc)
+    (hl : lookup c s pk = some pl) (hr : locNeedsRefresh s pl = true) :
+    match flatCompositeBegin c s pk ck with
+    | .done r s' => ∃ e, r = s!"err {e}" ∧ allocateForRefresh c s pl = .err e s'
+    | .slice p (some t) s' => p = pl ∧ allocateForRefresh c s pl = .ok t s'
+    | .slice _ none _ => False
+    | .broken => allocateForRefresh c s pl = .broken := by
+  unfold flatCompositeBegin
+  simp only [hl, hr, if_true]
+  cases allocateForRefresh c s pl with
+  | ok t s' => exact ⟨rfl, rfl⟩
+  | err e s' => exact ⟨e, rfl, rfl⟩
+  | broken => rfl
+
+/-- A composite read that is answered from the fast path (data at once, or the slicer started without a
+reservation) found the parent in a block that is not old: `store_survives` applies to the parent from this state. -/
+theorem composite_fast_path_parent_fresh (c : Store.Cfg) (s : Store.St) (pk ck : Nat) (pl : Store.Loc)
+    (hl : lookup c s pk = some pl) :
+    (match flatCompositeBegin c s pk ck with
+     | .slice _ none _ => True
+     | .done r _ => ∃ cl, lookup c s ck = some cl ∧ r = s!"data {showBytes (readLoc s cl)}"
+     | _ => False) →
+    locNeedsRefresh s pl = false := by
+  intro h
+  cases hr : locNeedsRefresh s pl with
+  | false => rfl
+  | true =>
+    exfalso
+    have := composite_old_parent_reserves c s pk ck pl hl hr
+    cases hb : flatCompositeBegin c s pk ck with
+    | done r s' =>
+      rw [hb] at this h
+      obtain ⟨e, he, _⟩ := this
+      obtain ⟨cl, _, hd⟩ := h
+      rw [he] at hd
+      -- "err ..." is not "data ..."
+      have hc := congrArg String.toList hd
+      simp only [String.toList_append] at hc
+      have h1 : (toString "err ").toList = ['e', 'r', 'r', ' '] := by decide
+      have h2 : (toString "data ").toList = ['d', 'a', 't', 'a', ' '] := by decide
+      rw [h1, h2] at hc
+      simp at hc
+    | slice p t s' =>
+      rw [hb] at this h
+      cases t with
+      | none => exact this
+      | some t => exact h
+    | broken => rw [hb] at h; exact h
+
+/-- The parent key of a composite read that was served from the fast path survives like a key that was just read. -/
+theorem composite_parent_survives (c : Store.Cfg) (pk ck : Nat) (s s' : Store.St) (pl : Store.Loc)
+    (h : SInv c s) (hq : Quiet c.bm s.bm) (r : PReach c pk s s')
+    (hl : lookup c s pk = some pl)
+    (hfast : match flatCompositeBegin c s pk ck with
+     | .slice _ none _ => True
+     | .done r _ => ∃ cl, lookup c s ck = some cl ∧ r = s!"data {showBytes (readLoc s cl)}"
+     | _ => False)
+    (hin : locBlk pl < s.bm.released + s.bm.caps.length)
+    (hp : s'.bm.pushes - s.bm.pushes ≤ c.bm.desiredOld) :
+    ∃ l', lookup c s' pk = some l' ∧ l'.isOlder pl = false :=
+  store_survives c pk s s' pl h hq r hl (composite_fast_path_parent_fresh c s pk ck pl hl hfast) hin hp
+
 /-! Non-vacuity (a test): an upload of key 5, then two further uploads that each allocate a block (`desiredOld = 2`),
 all as primitive steps without index discards: key 5 still resolves, and a third new block evicts it. -/
 def exampleRun (extra : Nat) : Option (Option (List Nat)) :=
